@@ -99,7 +99,7 @@ PROPS['C14'] = dict(
 PROPS['C02'] = dict(
     sess=[('sess_c02', 300, 4000), ('sweep_c02', 300, 4000), ('py_c01', 200, 2000)],
     events='w', state=['ret', 'conn', 'gen', 'h'],
-    monitors=[M.mon_c02, M.mon_c17, M.mon_c05_replay],
+    monitors=[M.mon_acked_never_again, M.mon_c02, M.mon_c17, M.mon_c05_replay],
     title='an accepted QoS 1 publish is never lost: replayed on each resume until PUBACK',
     claim='Proved in Coq over every step of every operation under every schedule: the bytes of a retained packet, modulo '
           'the DUP bit, stay in the retained list until an acknowledgement naming its identifier is processed or a fresh '
@@ -120,7 +120,7 @@ PROPS['C02'] = dict(
 PROPS['C03'] = dict(
     sess=[('sess_c03', 300, 4000), ('py_c03', 200, 3000)],
     events='w', state=['ret', 'rel', 'conn', 'gen', 'h', 'quota'],
-    monitors=[M.mon_c03, M.mon_c02, M.mon_c05_replay],
+    monitors=[M.mon_acked_never_again, M.mon_c03, M.mon_c02, M.mon_c05_replay],
     title='QoS 2 outbound exchange is exactly-once',
     claim='Proved in Coq: a successful PUBREC moves the exchange from the retained list to the release list in one step '
           '(the PUBLISH can never be written again, the PUBREL is owed); the release list always has room (with the quota '
